@@ -624,11 +624,13 @@ func forSpecials() []model.Stmt {
 		model.Each{Var: "s", Arr: model.Var{Name: "saved"}, Body: []model.Stmt{model.Print{E: model.Dot{X: model.Var{Name: "s"}, Name: "index"}}, model.Print{E: model.Dot{X: model.Var{Name: "s"}, Name: "last"}}, model.Text{S: ","}}}}}})
 	// float counters stepped with the postfix operators: a second run of the same loop starts from the same value
 	fv := model.Var{Name: "f"}
-	for _, op := range []string{"--", "++"} {
-		cmp, start, bound := ">", 2.5, 0.0
-		if op == "++" {
-			cmp, start, bound = "<", 0.5, 3.0
-		}
+	type fcount struct {
+		op, cmp      string
+		start, bound float64
+	}
+	for _, fc := range []fcount{{"--", ">", 2.5, 0.0}, {"++", "<", 0.5, 3.0}, {"--", ">", 1000002.0, 999999.0}, {"--", ">", 1000000.5, 999998.0}, {"++", "<", 999998.5, 1000001.0},
+		{"--", ">", 1e15 + 2, 1e15 - 1}, {"--", ">", 123456789.25, 123456786.0}, {"++", "<", -2.5, 1.0}, {"--", ">", 1.5, -2.0}, {"--", ">", 10000000.0, 9999997.0}, {"++", "<", 99999.5, 100002.0}} {
+		op, cmp, start, bound := fc.op, fc.cmp, fc.start, fc.bound
 		count := model.For{Init: &model.Assign{Name: "f", E: model.Var{Name: "start"}}, Cond: model.Binary{Op: cmp, L: fv, R: model.Lit{V: model.Float(bound)}},
 			Post: model.Print{E: model.Postfix{Op: op, X: fv}}, Body: []model.Stmt{model.Print{E: fv}, model.Text{S: " "}}, Else: []model.Stmt{model.Text{S: "never"}}}
 		out = append(out, model.If{Conds: []model.Expr{lit(1)}, Bodies: [][]model.Stmt{{model.Assign{Name: "start", E: model.Lit{V: model.Float(start)}},
